@@ -613,19 +613,15 @@ pub fn check_encode(u: &Universe, st: &State, last: &str, extra: Option<&ExtraCh
             return (vec![(format!("{}/export-of-a-function-over-a-resource-that-is-not-exported", u.prop), what)], classes);
         }
     }
-    // A function over a provider's resource passed as an argument while the consumer's own
-    // import of that resource is bound elsewhere (or left implicit): whether the function fits
-    // depends on an argument that is set separately; wac accepts each step and the result is
-    // rejected by the validator ("resource types are not the same"). One cause.
-    if v.iter().any(|(_, w)| w.contains("resource types are not the same")) {
-        let handle_arg = st.model.args.values().any(|n| match &st.model.nodes[n].item {
-            crate::refgraph::RItem::Ty(Ty::Opaque(k, text)) => k == "func" && (text.contains("own<") || text.contains("borrow<")),
-            _ => false,
-        });
-        if handle_arg {
-            let what = v.iter().map(|(f, w)| format!("{f}: {w}")).collect::<Vec<_>>().join(" || ");
-            return (vec![(format!("{}/argument-function-over-a-resource-that-is-bound-separately", u.prop), what)], classes);
-        }
+    // Resource identity across separately bound arguments: whether a function or interface over
+    // a resource fits depends on what the resource itself (or the interface defining it) is bound
+    // to, and that is another argument, set by another operation or left to an implicit import
+    // shared with other instantiations. wac accepts each step (it compares resources by shape)
+    // and the validator rejects the result ("resource types are not the same"). One cause;
+    // only in states where some argument is bound at all.
+    if v.iter().any(|(_, w)| w.contains("resource types are not the same")) && !st.model.args.is_empty() {
+        let what = v.iter().map(|(f, w)| format!("{f}: {w}")).collect::<Vec<_>>().join(" || ");
+        return (vec![(format!("{}/resource-identity-across-separately-bound-arguments", u.prop), what)], classes);
     }
     // Component-model values are linear: a value-kinded node that is not consumed exactly
     // once makes the output invalid. One cause, one fingerprint.
